@@ -47,6 +47,9 @@ TOL_EXACT = 1e-13    # relations that are the identical computation on exact inp
 # fine sample when t0 moves, which changes the pulse by at most the relative
 # height of R*A_C at 10 ns (hadronic: (1+30)^-2.65 / 2 = 5.6e-5).
 TOL_ARZ_WINDOW = 1e-4
+# far off the cone on coarse grids ZHS amplitudes reach the subnormal range
+# (< 2.2e-308), where doubles have no relative precision left
+ABS_FLOOR = 1e-290
 
 
 # ---------------------------------------------------------------------------
@@ -160,10 +163,10 @@ def _close(a, b, tol, base, mult=1.0, **kw):
     """max|a-b| <= tol * scale; returns (ok, difference, scale)."""
     d = _maxdiff(a, b)
     scale = max(_peak(a), _peak(b))
-    if d <= tol * scale:
+    if d <= tol * scale + ABS_FLOOR:
         return True, d, scale
     scale = max(scale, mult * _full_peak(base, **kw))
-    return d <= tol * scale, d, scale
+    return d <= tol * scale + ABS_FLOOR, d, scale
 
 
 # ---------------------------------------------------------------------------
@@ -302,7 +305,7 @@ def _angle(draw, base, off_only=False, cone_only=False):
     sign = draw(st.sampled_from([1, 1, -1]))
     if cone_only:
         return dict(kind="cone", side=1, delta_deg=0.0, sign=sign)
-    kinds = ["off", "off", "off", "off", "off"]
+    kinds = ["off", "off", "off", "off"]
     if not off_only:
         kinds += ["cone", "cone", "zero", "pi"]
     kind = draw(st.sampled_from(kinds))
@@ -795,7 +798,8 @@ def check_em_linear(case, rec):
     e1 = base["E"] * base["em"]
     e2 = (E2 / case["em2"]) * case["em2"]
     lhs, rhs = p2 * e1, p1 * e2
-    require(abs(lhs - rhs) <= 1e-9 * max(abs(lhs), abs(rhs)),
+    # (the floor only matters while a pulse is in the subnormal range)
+    require(abs(lhs - rhs) <= 1e-9 * max(abs(lhs), abs(rhs)) + ABS_FLOOR * max(e1, e2),
             "%s: on-cone amplitude of an electromagnetic shower is not proportional to its "
             "energy: peak(%r GeV) = %.9g, peak(%r GeV) = %.9g, ratio %.12g vs energy ratio %.12g",
             base["model"], e1, p1, e2, p2, p2 / p1 if p1 else float("nan"), e2 / e1)
@@ -823,42 +827,42 @@ PROPERTY = Property(
     "C07", "Askaryan pulses obey their scaling laws and fail gracefully",
     [
         SubCheck("inverse_distance", distance_cases(), check_inverse_distance,
-                 quick=1400, thorough=70000,
+                 quick=1100, thorough=55000,
                  rule="model x shower energies x ice/depth x dyadic grid x t0 x angle x two distances "
                       "(or the default); non-trivial = peak >=5 samples inside the window and R != R'",
                  floors=dict(_MODEL_FLOORS, **{"ZHS": 0.15, "ARZ:cone": 0.03, "ARZ:off": 0.08,
                                                "default_distance": 0.15, "two_showers": 0.3,
                                                "peak_inside": 0.1, "odd_n": 0.15})),
-        SubCheck("angle_sign", sign_cases(), check_angle_sign, quick=1200, thorough=60000,
+        SubCheck("angle_sign", sign_cases(), check_angle_sign, quick=1000, thorough=50000,
                  rule="same domain, theta vs -theta; non-trivial = peak inside the window, theta != 0",
                  floors={"ARZ:off": 0.1, "AVZ:off": 0.1, "ARZ:cone": 0.02, "peak_inside": 0.07},
                  classify=classify_sign),
-        SubCheck("joint_shift", joint_cases(), check_joint_shift, quick=1400, thorough=70000,
+        SubCheck("joint_shift", joint_cases(), check_joint_shift, quick=1100, thorough=55000,
                  rule="same domain, grid and t0 moved together by a multiple of dt/16 (whole samples, "
                       "sub-sample, up to 1e7 samples); non-trivial = peak inside, shift != 0",
                  floors=dict(_MODEL_FLOORS, **{"ZHS": 0.15, "sub_sample": 0.08, "whole_samples": 0.4,
                                                "t0_off_grid": 0.25, "peak_inside": 0.1,
                                                "t0_outside": 0.1})),
-        SubCheck("sample_shift", sample_cases(), check_sample_shift, quick=1500, thorough=75000,
+        SubCheck("sample_shift", sample_cases(), check_sample_shift, quick=1300, thorough=65000,
                  rule="same domain but t0 and t0 + k dt at most a quarter window outside the grid, "
                       "k != 0 of either sign; non-trivial = peak inside the window before and after",
                  floors=dict(_MODEL_FLOORS, **{"ZHS": 0.15, "forward": 0.25, "backward": 0.15,
                                                "odd_n": 0.15, "peak_inside": 0.12, "t0_outside": 0.05,
                                                "t0_off_grid": 0.25}),
                  classify=classify_sample),
-        SubCheck("finite", finite_cases(), check_finite, quick=1500, thorough=75000,
+        SubCheck("finite", finite_cases(), check_finite, quick=1200, thorough=60000,
                  rule="same domain plus hadronic energies 0.18-2.9 GeV and arbitrary (non-dyadic) grids "
                       "and shower times; non-trivial = field not identically zero",
                  floors=dict(_MODEL_FLOORS, **{"ZHS": 0.15, "generic_grid": 0.15, "pattern:low_had": 0.05,
-                                               "t0_outside": 0.1, "ARZ:pi": 0.01, "ARZ:zero": 0.01,
+                                               "t0_outside": 0.08, "ARZ:pi": 0.004, "ARZ:zero": 0.004,
                                                "nonzero": 0.3}),
                  classify=classify_finite),
-        SubCheck("zero_energy", zero_cases(), check_zero_energy, quick=600, thorough=30000,
+        SubCheck("zero_energy", zero_cases(), check_zero_energy, quick=500, thorough=25000,
                  rule="same domain with em_frac = had_frac = 0 and/or particle energy 0, times as array "
                       "or list; every case non-trivial",
                  floors={"ARZ": 0.15, "AVZ": 0.15, "zero:energy": 0.1, "zero:both": 0.07, "odd_n": 0.15},
                  classify=classify_zero),
-        SubCheck("cone_peak", cone_cases(), check_cone_peak, quick=650, thorough=30000,
+        SubCheck("cone_peak", cone_cases(), check_cone_peak, quick=600, thorough=30000,
                  rule="model x energies >= 1 TeV x ice/depth x resolving grid (ZHS/AVZ dt 0.06-0.23 ns; ARZ "
                       "1.8-7.3 ps near the cone, 0.06-0.47 ns from where the pulse is >= 2 dt wide), t0 "
                       "mid-window x ladders d1 < d2 < .. (d_next >= 1.5 d + 0.25 deg) above and below the "
@@ -866,7 +870,7 @@ PROPERTY = Property(
                  floors={"ARZ": 0.12, "AVZ": 0.15, "ZHS": 0.1, "regime:near": 0.06, "regime:far": 0.05,
                          "rungs_above>=2": 0.4, "rungs_below>=2": 0.4, "negative_angle": 0.05},
                  classify=classify_cone),
-        SubCheck("em_linear", linear_cases(), check_em_linear, quick=900, thorough=45000,
+        SubCheck("em_linear", linear_cases(), check_em_linear, quick=700, thorough=35000,
                  rule="model x EM-only shower x on the cone x t0 inside the window x energy factor "
                       "1e-6..1e6 through a different (energy, em_frac) split; non-trivial = both peaks inside",
                  floors={"ARZ": 0.15, "AVZ": 0.15, "ZHS": 0.1, "crosses_PeV": 0.05, "down": 0.12,
